@@ -67,6 +67,7 @@ type Contract struct {
 	Swallows     []string
 	NoInline     bool
 	Opaque       bool // treat body as unavailable (verify callers against contract only)
+	Havoc        bool // trusted spec that only says when the callee panics; results and effects stay unknown (havoc)
 	Lets         []LetDef
 	Implementers []string // interface contracts: only implementations whose name contains one of these are checked
 	SetsPost     []LetDef // ghost := expr (evaluated in the post-state) after every call of this (interface) method
@@ -147,7 +148,7 @@ func normKey(k string) string {
 var clauseKw = map[string]bool{
 	"func": true, "spec": true, "requires": true, "ensures": true, "modifies": true, "loop": true,
 	"panics-unless": true, "macro": true, "ghost": true, "axiom": true, "swallows": true,
-	"noinline": true, "opaque": true, "pure-verdict": true, "pure-result": true, "counts": true, "sets": true, "sets-post": true, "implementers": true, "let": true, "letold": true, "smt": true, "lemma": true,
+	"noinline": true, "opaque": true, "havoc": true, "pure-verdict": true, "pure-result": true, "counts": true, "sets": true, "sets-post": true, "implementers": true, "let": true, "letold": true, "smt": true, "lemma": true,
 }
 
 type rawItem struct {
@@ -432,6 +433,10 @@ func (db *SpecDB) loadItems(items []rawItem, pkgPath string, trusted bool) {
 		case "opaque":
 			if cur != nil {
 				cur.Opaque = true
+			}
+		case "havoc":
+			if cur != nil {
+				cur.Havoc = true
 			}
 		case "macro":
 			// macro name(a, b) = expr
